@@ -204,7 +204,7 @@ def check_dir(case, ev):
         for i, ch in enumerate(chunks):
             name = "f%d.cfg" % i
             texts[name] = build(dict(case, lines=ch)).replace("\r\n", "\n").replace("\r", " ")
-            if case.get("bom") and i % 2 == 0:
+            if case.get("bom") and i % 2 == 0 and ch and "tokens" in ch[0]:  # (a secret line may be removed as a whole, mark included)
                 texts[name] = "\ufeff" + texts[name]  # a file saved with a byte-order mark: it is part of the first token
             with open(os.path.join(d, "in", name), "w", encoding="utf-8", newline="") as fh:
                 fh.write(texts[name])
@@ -311,7 +311,7 @@ def _case(draw):
             inner = []
             same_text = False
             for ph in ("Someone", "Somegroup", "Someview", "Foo", "PEERS", "example.com"):
-                if ph in s and draw(st.integers(0, 5)) == 0 and not any(ch.isspace() for ch in v) and len(v) >= 4:
+                if ph in s and ph not in v and draw(st.integers(0, 5)) == 0 and not any(ch.isspace() for ch in v) and len(v) >= 4:
                     # the same text as the secret earlier on the line (user name == password):
                     # only the secret's own position may change
                     s = s.replace(ph, v)
@@ -320,7 +320,7 @@ def _case(draw):
                     strict = {"slot_token": last, "same_text_earlier": True}
                     same_text = True
                     continue
-                if ph in s and draw(st.booleans()):
+                if ph in s and ph not in v and draw(st.booleans()):
                     tok = draw(st.sampled_from(["dom\\user", "a\\1b", "grp\\g<1>", "x\\", "user.name", "U$er", "(adm)", "né", "\\u0041"]))
                     s = s.replace(ph, tok)
                     inner.append(tok)
